@@ -64,8 +64,57 @@ def _enum_class():
     return Enum("C10Enum", [(f"m{k}", f"m{k}") for k in range(8)])
 
 
+_INPUTS: dict = {}      # (token, dtype) -> (the array handed to the code, a snapshot of it): one impl() call
+
+
 def _np(tok: str, dtype):
+    """the array of a value token; within one impl() call the SAME array object is handed out again for the same token (a
+    second operation then works on the array the first one was given), and a snapshot is kept: no operation may change its
+    argument arrays"""
+    hit = _INPUTS.get((tok, dtype))
+    if hit is None:
+        import numpy
+        a = _np_new(tok, dtype)
+        hit = _INPUTS[(tok, dtype)] = (a, numpy.array(numpy.asarray(a), copy=True))
+    return hit[0]
+
+
+def _inputs_changed() -> bool:
+    import numpy
+    for a, snap in _INPUTS.values():
+        b = numpy.asarray(a)
+        if b.shape != snap.shape or b.dtype != snap.dtype:
+            return True
+        same = numpy.array_equal(b, snap, equal_nan=True) if b.dtype.kind == "f" else bool(numpy.all(b == snap))
+        if not same:
+            return True
+    return False
+
+
+_POISON = None          # (mask of the persons that do NOT hold the role of the call, value) for the current impl() call
+POISONS = {"nan": float("nan"), "inf": float("inf"), "-inf": float("-inf"), "huge": 2.0 ** 80, "-huge": -(2.0 ** 80)}
+
+
+def _np_new(tok: str, dtype):
+    a = _np_plain(tok, dtype)
+    if _POISON is not None and tok.startswith("i:") and getattr(a, "dtype", None) is not None and a.dtype.kind == "f" \
+            and len(a) == len(_POISON[0]):
+        # a role-restricted aggregate only looks at the holders of the role: the values of everybody else are replaced by
+        # nan / inf / huge numbers; the line (and the model, and the oracle) keep the original values
+        import numpy
+        a = a.copy()
+        a[numpy.array(_POISON[0], dtype=bool)] = _POISON[1]
+    return a
+
+
+def _np_plain(tok: str, dtype):
     kind, vals = G.parse_vals(tok)
+    if dtype == "str" and kind == "i":
+        import numpy
+        return numpy.array([str(v) for v in vals], dtype="<U8")          # decimal texts: the default 0 is the text '0'
+    if dtype == "date" and kind == "i":
+        import numpy
+        return numpy.array(vals, dtype=numpy.int64).astype("datetime64[D]")   # days since 1970-01-01
     if dtype == "enum" and kind == "i":
         import numpy
         from openfisca_core.indexed_enums import EnumArray
@@ -132,7 +181,44 @@ def _call(target, groups, op, role, args, dtype, pl):
     raise ValueError("unknown op " + op)
 
 
+def _as_ints(r, dtype):
+    """str / date results back as integers (the texts are decimal, the dates days since the epoch)"""
+    import numpy
+    r = numpy.asarray(r)
+    if dtype == "str" and r.dtype.kind == "U":
+        return numpy.array([int(x) for x in r.tolist()], dtype=numpy.int64)
+    if dtype == "date" and r.dtype.kind == "M":
+        return r.astype("datetime64[D]").astype(numpy.int64)
+    return r
+
+
+class _Aliased(Exception):
+    """a second identical call gave another answer after the first result was overwritten"""
+
+
+def _twice(thunk, pl):
+    """payload `twice`: call, overwrite the returned array in place, call again: the second answer must be the first one
+    (a result must not be a view of the population's state or of a cached result)"""
+    r = thunk()
+    if not pl.get("twice"):
+        return r
+    import numpy
+    keep = numpy.array(numpy.asarray(r), copy=True)
+    try:
+        if isinstance(r, numpy.ndarray) and r.size and r.flags.writeable:
+            numpy.asarray(r)[...] = numpy.asarray(r)[::-1].copy() if r.dtype.kind in "UM" else (r.dtype.type(1) if r.dtype.kind == "b" else 77)
+    except (TypeError, ValueError):
+        pass
+    r2 = thunk()
+    a2 = numpy.asarray(r2)
+    if a2.shape != keep.shape or not bool(numpy.all(a2 == keep)):
+        raise _Aliased
+    return r2
+
+
 def _attr_name(groups, sc: str) -> str:
+    if sc == "mb":
+        return "members"
     if sc == "h":
         return "household"
     if sc == "k":
@@ -145,6 +231,23 @@ def _attr_name(groups, sc: str) -> str:
 
 
 def impl(case: Case) -> str:
+    global _POISON
+    _INPUTS.clear()
+    _POISON = None
+    pl = case.payload or {}
+    if pl.get("poison"):
+        c = split_line(case.line)
+        match = G.role_matches(c["roles"], c["role"].lower()) if c["role"] not in "-?" else None
+        if match is not None:
+            _POISON = ([r not in match for _, r in c["members"]], POISONS[pl["poison"]])
+    out = _impl(case)
+    _POISON = None
+    if _inputs_changed():
+        return "MUTATED " + out
+    return out
+
+
+def _impl(case: Case) -> str:
     c = split_line(case.line)
     op, role, args = c["op"], c["role"], c["args"]
     pl = case.payload or {}
@@ -167,15 +270,18 @@ def impl(case: Case) -> str:
                 target = getattr(target, _attr_name(groups, sc))
             if op2 == "call":
                 # a variable holding the values, read by calling the projector
-                ref = target.reference_entity
+                from openfisca_core.projectors import Projector
+                ref = target.reference_entity if isinstance(target, Projector) else target      # (`members` is a population)
                 name = {"person": "pv", "household": "gv", "family": "kv"}[ref.entity.key]
                 sim.delete_arrays(name)
                 sim.set_input(name, G.PERIOD, _np(rest[0], "float32"))
                 return G.fmt_int_array(target(name, G.PERIOD))
-            return G.fmt_int_array(_call(target, groups, op2, role, rest, dtype, pl))
+            return G.fmt_int_array(_as_ints(_twice(lambda: _call(target, groups, op2, role, rest, dtype, pl), pl), dtype))
         target = P if op in PERSON_OPS else H
-        r = _call(target, groups, op, role, args, dtype, pl)
+        r = _as_ints(_twice(lambda: _call(target, groups, op, role, args, dtype, pl), pl), dtype)
         return G.fmt_int_array(r) if op == "partner" else G.fmt_array(r)
+    except _Aliased:
+        return "ALIASED"
     except Exception:
         return "ERR"
 
@@ -339,7 +445,12 @@ def _chain_steps(c, start, shortcuts):
     cur = {"p": "p", "g": 0, "G": 1}[start]
     steps = []
     for sc in shortcuts.split("."):
-        if sc in ("h", "k"):
+        if sc == "mb":
+            # `members` of a group population (also through a projector): the persons population itself, no projector
+            if cur == "p":
+                raise Silent
+            steps, cur = [], "p"
+        elif sc in ("h", "k"):
             e = 0 if sc == "h" else 1
             if e >= nents:
                 raise Silent
@@ -445,6 +556,9 @@ def _rank_consistent(c, out):
 def oracle(case: Case, out: str):
     c = split_line(case.line)
     op, role, args = c["op"], c["role"], c["args"]
+    if out.startswith("MUTATED"):
+        return ("argument-array-changed", f"{op} role={role}: the call overwrote (part of) an array it was given as argument; every "
+                                          f"later use of that array by the caller sees other values (answer of the call itself: {out[8:]})")
     if not _in_domain(c) or op == "omap":
         return None
     n, count = len(c["members"]), c["count"]
@@ -610,7 +724,8 @@ def _case(tok, count, members, op, role, *args, claimed=True, tags=(), dtype="fl
 
 
 def call_spellings(rng: random.Random, members):
-    """how the adapter spells the call (the line, the model and the oracle do not depend on it):
+    """how the adapter spells the call (the line, the model and the oracle do not depend on it; `twice`: the call is made
+    twice, the first result being overwritten in place in between — the second answer must not change):
     role passed positionally / by keyword, Role looked up with get_role(key), default= omitted when
     it is 0, get_rank given the projector person.household instead of the population and no /
     scalar / array condition, the cloned simulation's populations, members_role left unset when
@@ -628,6 +743,8 @@ def call_spellings(rng: random.Random, members):
                 f[key] = True
         if rng.random() < 0.4:
             f["rank_entity"] = "projector"
+        if rng.random() < 0.2:
+            f["twice"] = True
         r = rng.random()
         if r < 0.3:
             f["cond_default"] = True
@@ -804,6 +921,55 @@ def cases_for(rng: random.Random, tok, count, members, full=False):
     for r in uniq[:1]:
         out.append(mk("chain", "-", "g", r, "call", I(a)))
         out.append(mk("chain", "-", "p", "h." + r + ".h", "call", I(x)))
+    # role-restricted aggregates only look at the holders of the role: everybody else holds nan / inf / huge values
+    for r in [x for x in roles if x != "-"][:2]:
+        nn = [rng.randint(0, 9) for _ in range(n)]
+        picks = [("sum", I(a)), ("min", I(a)), ("max", I(a)), ("any", I(nn)), ("all", I(nn)), ("sum", I(nn))]
+        if r in uniq:
+            picks.append(("from", rng.choice([0, -3]), I(a)))
+        for pk in rng.sample(picks, 2):
+            plx = spell()
+            plx["poison"] = rng.choice(["nan", "nan", "inf", "-inf", "huge", "-huge"])
+            out.append(_case(tok, count, members, pk[0], r, *pk[1:], dtype=rng.choice(["float64", "float64", "float32"]), pl=plx,
+                             tags=st + ("role", "non-holders-" + plx["poison"])))
+        if rng.random() < 0.3:
+            plx = spell()
+            plx["poison"] = rng.choice(["nan", "inf"])
+            out.append(_case(tok, count, members, "chain", r, "p", "h", rng.choice(["sum", "max"]), I(a), dtype="float64", pl=plx,
+                             tags=st + ("role", "non-holders-" + plx["poison"])))
+    # a wide range of magnitudes ACROSS groups, a narrow one within each: one member of one group holds +-2**53 (or 2**40, 2**52 + 2**30),
+    # its fellow members 0, everybody else small integers: every per-group sum is exact in float64, a running total over groups is not
+    if n >= 2 and (full or rng.random() < 0.35):
+        big_i = rng.randrange(n)
+        gb = members[big_i][0]
+        wide = [0 if members[i][0] == gb else rng.choice([1, -1, 3, 2, -3, 5, 7]) for i in range(n)]
+        wide[big_i] = rng.choice([1, -1]) * rng.choice([2 ** 53, 2 ** 53, 2 ** 52 + 2 ** 30, 2 ** 40, 2 ** 50 + 2])
+        for r in ["-"] + [x for x in roles if x != "-"][:1]:
+            out.append(_case(tok, count, members, "sum", r, I(wide), dtype=rng.choice(["float64", "float64", "int64"]), pl=spell(),
+                             tags=st + ("wide-range-across-groups",)))
+        out.append(_case(tok, count, members, "chain", "-", "p", "h", "sum", I(wide), dtype="float64", pl=spell(),
+                         tags=st + ("wide-range-across-groups",)))
+    # `members`: the persons population held by a group population, also reached through projectors (which it drops)
+    out.append(mk("chain", r0, "p", "h.mb.h", *rng.choice([("sum", I(a)), ("max", I(a)), ("nb",)]), tags=("members",)))
+    out.append(mk("chain", rng.choice(ra) if ra else "-", "g", rng.choice(["mb", "fp.h.mb"]), "hasrole" if ra else "rank", *(() if ra else (I(crit), B(cond))),
+                  tags=("members",)))
+    if full or rng.random() < 0.4:
+        out.append(mk("chain", "-", "g", "mb", "rank", I(crit), B(cond), tags=("members",)))
+        out.append(mk("chain", "-", "g", "mb.h", "call", I(x), tags=("members",)))
+        out.append(mk("chain", "-", "g", "mb", "call", I(a), tags=("members",)))
+        out.append(mk("chain", "-", "p", rng.choice(["mb", "h.fp.mb", "mb.h"]), "sum", I(a), tags=("members", "malformed")))
+    # str and date arrays: the operations that move values without computing on them
+    for dtx in (("str", "date") if full else (rng.choice(["str", "date"]),)):
+        sa = [rng.randint(-99, 999) for _ in range(n)]
+        sx = [rng.randint(0, 999) for _ in range(count)]
+        mkx = lambda op, role, *args: _case(tok, count, members, op, role, *args, tags=st + (dtx + "-array",), dtype=dtx, pl=spell())
+        out.append(mkx("nth", "-", rng.choice([0, 1, biggest]), rng.choice([0, -7, 99]), I(sa)))
+        out.append(mkx(*rng.choice([("first", "-", I(sa)), ("project", "-", I(sx)), ("chain", "-", "p", "h", "first", I(sa)),
+                                    ("chain", "-", "g", "fp.h", "project", I(sx))])))
+        for r in uniq[:1]:
+            out.append(mkx("from", r, rng.choice([0, 5]), I(sa)))
+        if n and dtx == "str" and ra:
+            out.append(mkx("project", rng.choice(ra), I(sx)))
     # a second group entity, the `containing_entities` shortcut, chains of 3..5 projectors
     if n and (full or rng.random() < 0.5):
         out += chain2_cases(rng, tok, count, members, a, b, x, spell, st)
@@ -1014,7 +1180,7 @@ def malformed_for(rng: random.Random, tok, count, members):
 
 
 def generate(rng: random.Random, tier: str):
-    npop = 8000 if tier == "quick" else 60000
+    npop = 7000 if tier == "quick" else 54000
     out = []
     for k in range(npop):
         tok, count, members = random_population(rng, small=(k % 5 == 0))
@@ -1127,7 +1293,13 @@ PROP = Prop(
           "and with two role arguments, value_nth_person at 0/1/last/beyond, first person, value_from_person for unique "
           "and non-unique roles, project with and without role (integer and boolean arrays, dtypes float64/float32/"
           "int64/int32), has_role, get_rank with distinct criteria (binding) and tied criteria (permutation-consistency "
-          "only), 15 projector chains; any / all on integer arrays and min / max on boolean arrays; value_from_partner for "
+          "only), 15 projector chains; role-restricted sum / min / max / any / all / value_from_person on float arrays in which every person "
+          "NOT holding the role carries nan, +inf, -inf or +-2**80 (the line, the model and the oracle keep the original values: the "
+          "aggregate is of the holders only); sums (float64 / int64) with a wide range of magnitudes ACROSS groups and a narrow one within "
+          "(one member holds +-2**53 / 2**40, its fellow members 0, everybody else small integers: each per-group sum is exact, a running "
+          "total over the groups would not be); chains through `members` (group.members, person.group.members...: the persons population, "
+          "projectors dropped); value_nth_person / first person / value_from_person / project on str arrays (decimal texts) and "
+          "datetime64[D] arrays; any / all on integer arrays and min / max on boolean arrays; value_from_partner for "
           "every role with exactly two sub-roles (others refused); value_nth_person / value_from_first_person after "
           "members_position has been ASSIGNED to a random permutation inside each group; attributes that are not "
           "projectable (project) and CALLED projectors (a variable per entity, set_input + projector(name, period)) at the "
@@ -1149,6 +1321,7 @@ PROP = Prop(
           "unresolvable chains, group index outside the simulation, zero persons). Non-trivial: >= 2 persons, >= 2 "
           "groups and a value (not an error); distinct = distinct protocol lines."),
     assumptions=[
+        "str arrays are decimal texts of width <= 8 and date arrays datetime64[D] given as days since the epoch: the operations that move values (value_nth_person, first person, value_from_person, project) are compared on them through the integers they denote",
         "numpy primitives (bincount, argsort, boolean-mask read/write, integer indexing, where, minimum/maximum/logical_and) are modelled as list functions in Group.lean and tied by this correspondence",
         "numpy.argsort is modelled as a stable sort; the results of the modelled operations do not depend on the order among equal keys (at most one selected person per group), and the tie order of get_rank is outside the claim domain",
         "values are exact integers / booleans (float32/float64/int32/int64 arrays of small integers); rounding, overflow and NaN propagation are not modelled",
@@ -1156,9 +1329,14 @@ PROP = Prop(
         "`any` is computed as sum > 0: the oracle states it for boolean and non-negative integer arrays; on signed integer arrays whose values cancel the code answers False where some value is non-zero (compared with the model, reported as an observation, not stated by the oracle)",
     ],
     level_text=("T-full on the model: every aggregate / projection / position / rank / chain clause of the statement is a "
-                "theorem for all population sizes and membership maps (20 theorems, incl. independence from numpy's unstable "
-                "argsort order, assigned member positions, the partner projection, chains through several group entities "
-                "and the containing-entity shortcut, and the refusal branches); the numpy primitives are modelled and tied by the correspondence; "
+                "theorem for all population sizes and membership maps (27 theorems, incl. independence from numpy's unstable "
+                "argsort order, assigned member positions, the partner projection, chains through several group entities, "
+                "the containing-entity shortcut and `members`, the refusal branches, invariance of every aggregate under any "
+                "reordering of the persons, role-restricted sums adding up to the total over roles that partition the members, "
+                "aggregates of a projection giving the group's value back, `reduce` for any reducer with a right-neutral element, "
+                "and independence of get_rank from the width of its position matrix); every argument array is snapshotted before the call "
+                "and compared after it (no operation changes its arguments), 20% of the calls are made twice on the same array objects "
+                "with the first result overwritten in between; the numpy primitives are modelled and tied by the correspondence; "
                 "tie order of get_rank and the raw ordered_members_map are compared but not binding. F-C10 (bincount without "
                 "minlength) is repaired in the modelled code and sits in the corpus."),
     exhaustive_note="thorough: all membership maps of 1..5 persons into 1..3 groups with 2 roles (10 756 populations x 36 operations)",
